@@ -207,7 +207,19 @@ def gen_point_eval(w, rng):
         _targeted_unsolved(w, rng, p)
         return {'self': p}
     _solved_world(w, rng)
-    return {'self': w.point()}
+    p = w.point()
+    _stale(rng, p)
+    return {'self': p}
+
+
+def _stale(rng, obj):
+    """a composite object read after an earlier solve still carries the value computed then"""
+    import numpy as np
+    if not obj._is_leaf and rng.random() < 0.4:
+        if hasattr(obj, 'list_of_leaf_points'):
+            obj._value = np.full(max(1, type(obj).counter), 7.0)
+        else:
+            obj._value = 77.0
 
 
 def _targeted_unsolved(w, rng, e):
@@ -235,7 +247,9 @@ def gen_expr_eval(w, rng):
         _targeted_unsolved(w, rng, e)
         return {'self': e}
     _solved_world(w, rng, post_solve_leaf=False)
-    return {'self': w.expression()}
+    e = w.expression()
+    _stale(rng, e)
+    return {'self': e}
 
 
 def gen_cons_eval(w, rng):
@@ -245,6 +259,9 @@ def gen_cons_eval(w, rng):
         return {'self': w.Constraint(e, rng.choice(['equality', 'inequality']))}
     _solved_world(w, rng, post_solve_leaf=False)
     c = w.Constraint(w.expression(), rng.choice(['equality', 'inequality']))
+    _stale(rng, c.expression)
+    if rng.random() < 0.4:
+        c._value = 55.0          # value computed after an earlier solve
     if rng.random() < 0.3:
         c._dual_variable_value = float(rng.choice([0, 0.5, 2]))
     return {'self': c}
